@@ -28,6 +28,12 @@ def run(ctx):
         "constants or base64 material; (W6) the quoting branch is reached only after CR, LF and NUL were excluded "
         "(such values take the literal branch or are refused).")
     ctx.not_decided = "that a strict server-side parser decodes the bytes to the caller's values for all unicode inputs (behavioural)."
+    wire_rules(ctx, R)
+
+
+def wire_rules(ctx, R, verbs=True):
+    """W1-W7.  With verbs=False the per-operation verb table (W5) is left out: C14 / C15 share the encoding rules (what reaches the server
+    is what the caller passed), not the operation table."""
     fmt = R.formatter
     if fmt is None:
         raise AnalysisError("W", "argument formatter not identified (method called by the sender that loops over the arguments)")
@@ -77,17 +83,31 @@ def run(ctx):
                 chain.append(prev.value)
         return chain
 
-    def classify(el, st):
+    where = {}  # id(inner expr) -> (function it belongs to, name of the value in that function)
+
+    def classify(el, st, func=None, v=None, depth=0):
         """raw / quoted(inner) / literal / number / other"""
-        if isinstance(el, ast.Name) and el.id == var:
+        func = func or fmt
+        v = v or var
+        if isinstance(el, ast.Name) and el.id == v:
             return ("raw", None)
         # b'"' + X + b'"'
         parts = flatten_add(el)
-        if len(parts) == 3 and is_const(ctx, fmt, parts[0], b'"') and is_const(ctx, fmt, parts[2], b'"'):
+        if len(parts) == 3 and is_const(ctx, func, parts[0], b'"') and is_const(ctx, func, parts[2], b'"'):
+            where[id(parts[1])] = (func, v)
             return ("quoted", parts[1])
+        # a quoting helper: f(<value>) whose body is `return <expression of its parameter>`
+        if isinstance(el, ast.Call) and len(el.args) == 1 and not el.keywords and isinstance(el.args[0], ast.Name) and el.args[0].id == v and depth < 2:
+            g = resolve_helper(ctx, func, el)
+            if g is not None:
+                gp = [x for x in g.params if not (g.cls is not None and x == g.params[0])]
+                rets_ = [r for r in walk_no_nested(g.node) if isinstance(r, ast.Return) and r.value is not None]
+                if len(gp) >= 1 and len(rets_) == 1:
+                    return classify(rets_[0].value, rets_[0], g, gp[0], depth + 1)
         if isinstance(el, ast.BinOp) and isinstance(el.op, ast.Mod) and isinstance(el.left, ast.Constant) \
                 and isinstance(el.left.value, bytes):
             if el.left.value == b'"%s"':
+                where[id(el.right)] = (func, v)
                 return ("quoted", el.right)
             if el.left.value.startswith(b"{"):
                 return ("literal", el)
@@ -105,8 +125,9 @@ def run(ctx):
         nodes = cfg.nodes_for(st)
         if kind == "quoted":
             nq += 1
-            exprs = [inner] + (reaching_value(st) if isinstance(inner, ast.Name) and inner.id == var else [])
-            esc = escaper_order(ctx, fmt, exprs, var)
+            ifunc, ivar = where.get(id(inner), (fmt, var))
+            exprs = [inner] + (reaching_value(st) if ifunc is fmt and isinstance(inner, ast.Name) and inner.id == var else [])
+            esc = escaper_order(ctx, ifunc, exprs, ivar)
             if esc is True:
                 ctx.holds("W2", "%s: %s" % (fmt.qualname, norm(el)))
             else:
@@ -227,6 +248,8 @@ def run(ctx):
             ctx.violation("W4", lb, "literal-template", "the literal builder's result is malformed: %s" % ok, node=r,
                           witness="putscript('x', 'é') announces a length different from the number of octets sent")
 
+    if not verbs:
+        return
     # ---- W5 verb table ----------------------------------------------------------------
     ctx.rule("W5", "each public operation sends exactly its RFC 5804 verb (constant), at most one command per path; names as "
                    "encoded bytes, numbers as int; raw channels carry only constants or base64")
@@ -316,12 +339,41 @@ def w1(ctx, R):
                               node=c, witness="this write bypasses quoting and the one-command-one-reply discipline")
     for f, c in R.foreign_send:
         ctx.violation("W1", f, "foreign-send", "socket write outside the Client command sender", node=c)
-    ctx.need("W1", "send sites", n, 2)
-    # what the sender writes: tosend (verb + formatted args) and extra lines, each + CRLF
+    ctx.need("W1", "send sites", n, 1)
+    # what the sender writes: tosend (verb + formatted args) and extra lines, each + CRLF - directly, or collected in an accumulator
+    def line(e):
+        return isinstance(e, ast.BinOp) and isinstance(e.op, ast.Add) and const_value(ctx.program, snd, e.right) == b"\r\n"
+    cfgs = None
     for c in R.send_sites.get(snd.name, []):
         a = c.args[0] if c.args else None
-        if not (isinstance(a, ast.BinOp) and isinstance(a.op, ast.Add) and const_value(ctx.program, snd, a.right) == b"\r\n"):
-            ctx.violation("W1", snd, "no-crlf:%s" % norm(a), "a line is sent without the terminating CRLF: %s" % norm(c), node=c)
+        if line(a):
+            continue
+        if isinstance(a, ast.Name) or (isinstance(a, ast.Attribute) and isinstance(a.value, ast.Name) and a.value.id == snd.params[0]):
+            t = norm(a)
+            sets = [x for x in walk_no_nested(snd.node) if isinstance(x, ast.Assign) and any(norm(tg) == t for tg in x.targets)]
+            adds = [x for x in walk_no_nested(snd.node) if isinstance(x, ast.AugAssign) and norm(x.target) == t]
+            forms = all(line(x.value) or const_value(ctx.program, snd, x.value) == b"" for x in sets) and all(
+                isinstance(x.op, ast.Add) and line(x.value) for x in adds) and (sets or adds)
+            if not forms:
+                ctx.violation("W1", snd, "no-crlf:%s" % norm(a), "the write accumulator %s is not built from <line> + CRLF pieces only" % t, node=c)
+                continue
+            if isinstance(a, ast.Attribute):
+                # the accumulator outlives the call: whatever an earlier, failed call left in it must not be sent now
+                cfgs = cfgs or ctx.cfg(snd)
+                first = [x for st in sets for x in cfgs.nodes_for(st)]
+                users = [x for st in adds for x in cfgs.nodes_for(st)] + cfgs.node_containing(c)
+                fresh = [st for st in sets if not any(isinstance(y, (ast.Attribute, ast.Name)) and norm(y) == t for y in ast.walk(st.value))]
+                fnodes = [x for st in fresh for x in cfgs.nodes_for(st)]
+                if fnodes and all(cfgs.dominates(fnodes, u, exc=False) for u in users):
+                    ctx.holds("W1", "%s: the instance-level accumulator %s is emptied before it is filled" % (snd.qualname, t))
+                else:
+                    ctx.violation("W1", snd, "stale-write-buffer", "the sender collects its output in %s, which outlives the call, and does not "
+                                  "empty it before filling it: when a write raises, the unsent command is sent together with the next one" % t,
+                                  node=c, witness="sendall raises (timeout) during deletescript('a'); the next listscripts() writes DELETESCRIPT \"a\" again")
+            else:
+                ctx.holds("W1", "%s: lines are collected in the local %s and written at once" % (snd.qualname, t))
+            continue
+        ctx.violation("W1", snd, "no-crlf:%s" % norm(a), "a line is sent without the terminating CRLF: %s" % norm(c), node=c)
     # the formatter is applied to the args
     fcalls = self_calls(snd, fmt.name)
     if not fcalls:
@@ -341,6 +393,43 @@ def w1(ctx, R):
             ctx.violation("W1", snd, "args-bypass-formatter", "the argument list is used outside the formatter call: %s" % norm(stmt_of(nnode))[:80],
                           node=nnode)
     return args_param
+
+
+def resolve_helper(ctx, func, call):
+    """The function a call `self.m(x)`, `mod.f(x)` or `f(x)` designates (None when it is not one of the package's own)."""
+    nm = call_name(call)
+    if nm is None:
+        return None
+    fn = call.func
+    if isinstance(fn, ast.Attribute) and isinstance(fn.value, ast.Name) and func.cls is not None and fn.value.id == func.params[0]:
+        return ctx.program.method(func.cls, nm) or next((m for k, m in func.cls.methods.items() if k.lstrip("_") == nm.lstrip("_")), None)
+    if isinstance(fn, ast.Attribute) and isinstance(fn.value, ast.Name) and fn.value.id in ctx.program.modules:
+        return ctx.program.modules[fn.value.id].funcs.get(nm)
+    if isinstance(fn, ast.Name):
+        g = func.module.funcs.get(nm)
+        if g is not None:
+            return g
+        for m in ctx.program.modules.values():
+            if nm in m.funcs and nm in getattr(func.module, "imports", {}):
+                return m.funcs[nm]
+    return None
+
+
+def regex_source(ctx, f, e):
+    """Pattern (bytes/str) of a regex operand: a constant, or a name/attribute bound to re.compile(<constant>)."""
+    v = const_value(ctx.program, f, e)
+    if isinstance(v, (bytes, str)):
+        return v
+    if isinstance(e, ast.Name):
+        for m in [f.module] + list(ctx.program.modules.values()):
+            d = m.assigns.get(e.id)
+            if isinstance(d, ast.Call) and call_name(d) == "compile" and d.args:
+                v = const_value(ctx.program, f, d.args[0])
+                if not isinstance(v, (bytes, str)) and isinstance(d.args[0], ast.Constant):
+                    v = d.args[0].value
+                if isinstance(v, (bytes, str)):
+                    return v
+    return None
 
 
 def flatten_add(e):
@@ -373,14 +462,23 @@ def escaper_order(ctx, f, exprs, var, depth=0):
             walk(e.func.value)
             a, b = const_value(ctx.program, f, e.args[0]), const_value(ctx.program, f, e.args[1])
             steps.append((a, b))
-        elif isinstance(e, ast.Call) and call_name(e) == "sub" and len(e.args) >= 3:
-            pat, rep = const_value(ctx.program, f, e.args[0]), const_value(ctx.program, f, e.args[1])
+        elif isinstance(e, ast.Call) and call_name(e) == "sub" and len(e.args) >= 2:
+            if len(e.args) >= 3:
+                pat, rep, subject = regex_source(ctx, f, e.args[0]), const_value(ctx.program, f, e.args[1]), e.args[2]
+            else:  # compiled pattern: P.sub(rep, subject)
+                pat, rep, subject = regex_source(ctx, f, e.func.value), const_value(ctx.program, f, e.args[0]), e.args[1]
             if isinstance(pat, bytes) and isinstance(rep, bytes):
                 cs = rx_chars(pat)
-                if '"' in cs and "\\" in cs and rep in (rb"\\\1", rb"\\\g<0>", rb"\\\g<1>"):
+                try:
+                    import re._parser as _sre
+                    width = tuple(int(x) for x in _sre.parse(pat).getwidth())
+                except Exception:
+                    width = None
+                # one backslash is inserted per MATCH: every match must be exactly one special character
+                if '"' in cs and "\\" in cs and rep in (rb"\\\1", rb"\\\g<0>", rb"\\\g<1>") and width == (1, 1):
                     steps.append((b"\\", b"\\\\"))
                     steps.append((b'"', b'\\"'))
-            walk(e.args[2])
+            walk(subject)
         elif isinstance(e, ast.Call) and isinstance(e.func, ast.Attribute) and isinstance(e.func.value, ast.Name) \
                 and e.func.value.id == f.params[0] and f.cls is not None and depth < 2:
             g = ctx.program.method(f.cls, e.func.attr)
